@@ -49,6 +49,31 @@ def check(run, prog, tier):
     from . import c09
     from ..report import RuleProxy
     c09.rule_E(RuleProxy(run, "C05-U8"), prog)
+    run.rule("C05-U9", "every class of quantarhei.qm that keeps a Hamiltonian to compute with (rate matrices, relaxation "
+                       "tensors, propagators, hierarchy) and the evolutions that convert from the rotating frame read "
+                       "units-converting accessors under internal units", minimum=40)
+    rule_U9(run, prog)
+
+
+def rule_U9(run, prog):
+    """'The stored value does not depend on the context in which it was supplied' for what calculators
+    store: their results.  The classes are found from the tree (constructor parameter typed or named as
+    the Hamiltonian and kept on self); the rule is the one of qv/rules/intunits.py."""
+    from . import intunits
+    from .. import unitflow
+    classes = []
+    for c in sorted(prog.all_classes(), key=lambda c: c.qualname):
+        if not c.qualname.startswith("quantarhei.qm.") or ".tests." in c.qualname:
+            continue
+        if unitflow.hamiltonian_fields(prog, c)[1]:
+            classes.append(c.qualname)
+    classes += ["quantarhei.qm.propagators.dmevolution.DensityMatrixEvolution",
+                "quantarhei.qm.propagators.statevectorevolution.StateVectorEvolution"]
+    if len(classes) < 20:
+        raise AnalysisError("C05-U9: only %d classes keeping a Hamiltonian found (23 confirmed)" % len(classes))
+    intunits.check_classes(run, prog, "C05-U9", classes, 40,
+                           "what the calculator combines it with (times in fs, kT) is internal: the result stored by the "
+                           "calculator depends on the units context it was called from")
 
 
 def rule_U7(run, prog):
